@@ -1409,7 +1409,7 @@ fn findings_main(args: &[String]) {
         let el = b.h(Op::CreateSub(p, n.elidx("ELEMENTS")));
         (b, el)
     };
-    // 0: fixed 9bc7d2b: root comment and attribute survive duplicate()
+    // 0: fixed 04fa0d1: root comment and attribute survive duplicate()
     {
         let (mut b, _) = start(0x100000);
         b.push(Op::SetComment(0, Some(b"root comment".to_vec())));
